@@ -169,7 +169,24 @@ func Matrix(full bool) []*Schema {
 		{Num: 15, Kind: Bool, Shape: Singular},
 		{Num: 536870911, Kind: Sint32, Shape: Singular},
 	}}
-	s.Msgs = []Msg{m0, m1, m2, m3, m4, m5, m6, m7, m8, m9, m10}
+	// M11: several oneofs whose declaration order differs from the order of their field numbers
+	// (first oneof on high numbers, second on low ones, third nested inside the range of the first)
+	m11 := Msg{Name: "M11", Fields: []Field{
+		{Num: 10, Kind: Int32, Shape: Oneof, Group: 0},
+		{Num: 11, Kind: String, Shape: Oneof, Group: 0},
+		{Num: 2, Kind: Uint64, Shape: Oneof, Group: 1},
+		{Num: 3, Kind: Bytes, Shape: Oneof, Group: 1},
+		{Num: 1, Kind: Bool, Shape: Oneof, Group: 2},
+		{Num: 20, IsMsg: true, Msg: 1, Shape: Oneof, Group: 2},
+		{Num: 5, Kind: Sint32, Shape: Singular},
+		{Num: 15, Kind: Fixed64, Shape: Repeated, Packed: true},
+	}}
+	// M12: reaches itself through map values only (plus a scalar at every level)
+	m12 := Msg{Name: "M12", Fields: []Field{
+		{Num: 1, IsMsg: true, Msg: 12, Shape: Map, Key: Int32},
+		{Num: 2, Kind: Int32, Shape: Singular},
+	}}
+	s.Msgs = []Msg{m0, m1, m2, m3, m4, m5, m6, m7, m8, m9, m10, m11, m12}
 	out := []*Schema{s}
 	if full {
 		// every key kind x every value kind (+ message), 3 schemas to keep packages small
@@ -493,4 +510,31 @@ func Dup() []*Schema {
 		{Name: "A", Fields: []Field{{Num: 5, Kind: Uint64, Shape: Oneof, Group: 0}, {Num: 6, IsMsg: true, Msg: 1, Shape: Oneof, Group: 0}}},
 	}
 	return []*Schema{a, b}
+}
+
+// SamePkg: five files in ONE Go package, the last importing the other four (same-package imports are
+// initialised by file_<dep>_proto_init() calls inside the importer's init function).
+func SamePkg() []*Schema {
+	var out []*Schema
+	mk := func(id string, msgs []Msg, imports []string) *Schema {
+		sc := corpusSchema(id)
+		sc.Package = "vc.sp"
+		sc.GoPkg = "github.com/cosmos/cosmos-proto/internal/verifcorpus/sp"
+		sc.Dir = "sp"
+		sc.NoEnum = id != "spa"
+		sc.Msgs = msgs
+		sc.Imports = imports
+		return sc
+	}
+	for i, n := range []string{"spa", "spb", "spc", "spd"} {
+		out = append(out, mk(n, []Msg{{Name: "D" + string(rune('A'+i)), Fields: []Field{{Num: 1, Kind: allKinds[i*3], Shape: Singular}, {Num: 2, Kind: String, Shape: Repeated}}}}, nil))
+	}
+	out = append(out, mk("spe", []Msg{{Name: "Main", Fields: []Field{
+		{Num: 1, IsMsg: true, Extern: "vc.sp.DA", Shape: Singular},
+		{Num: 2, IsMsg: true, Extern: "vc.sp.DB", Shape: Repeated},
+		{Num: 3, IsMsg: true, Extern: "vc.sp.DC", Shape: Map, Key: String},
+		{Num: 4, IsMsg: true, Extern: "vc.sp.DD", Shape: Oneof, Group: 0},
+		{Num: 5, Kind: Int64, Shape: Oneof, Group: 0},
+	}}}, []string{"verifcorpus/sp/spa.proto", "verifcorpus/sp/spb.proto", "verifcorpus/sp/spc.proto", "verifcorpus/sp/spd.proto"}))
+	return out
 }
